@@ -303,9 +303,16 @@ func (s *Stage) Receive(file *sts.Partial, reader io.Reader) (err error) {
 	if _, err = fh.Seek(part.Beg, 0); err != nil {
 		return
 	}
-	_, err = io.Copy(fh, reader)
+	nCopied, err := io.Copy(fh, reader)
 	fh.Close()
 	if err != nil {
+		return
+	}
+	if nCopied != part.End-part.Beg {
+		// The stream ended early (it looks like a clean EOF to the reader),
+		// so these bytes must not go on record as received
+		err = fmt.Errorf("received only %d of %d bytes for part %d:%d of %s",
+			nCopied, part.End-part.Beg, part.Beg, part.End, file.Name)
 		return
 	}
 
